@@ -276,6 +276,15 @@ class Body:
         return None
 
     # ---------------------------------------------------------------- guards
+    def reach_under(self, assume=()):
+        """blocks reachable from entry when each assumed switch takes only the allowed edges"""
+        es = self.edges()
+        assumed = {}
+        for (s, allowed) in assume:
+            assumed[s] = set(allowed)
+        removed = [idx for idx, (a, b, l) in enumerate(es) if l[0] == "sw" and a in assumed and l[1] not in assumed[a]]
+        return self.reachable(0, removed_edges=removed)
+
     def guards_of(self, bb, assume=()):
         """switch edges that dominate `bb`: list of (switch_bb, label_values, discr_term, dty).
         An edge group (all edges of one switch leading to the same block) dominates bb iff bb is
